@@ -39,6 +39,18 @@ def _hook(event, args):
         if event == "open":
             rec["mode"] = args[1]
             rec["flags"] = args[2]
+        if isinstance(p, str):
+            # where the kernel will really go: links created by earlier members are followed (lexical checks miss that)
+            REC["on"] = False
+            try:
+                rec["real"] = os.path.realpath(p)
+                if event in ("os.symlink", "os.link", "os.rename") and len(args) > 1 and isinstance(args[1], str):
+                    d = args[1]
+                    rec["dst_real"] = os.path.join(os.path.realpath(os.path.dirname(d) or "."), os.path.basename(d))
+            except Exception:  # noqa
+                pass
+            finally:
+                REC["on"] = True
         if event == "os.mkdir" and isinstance(p, str):
             REC["on"] = False
             try:
